@@ -17,7 +17,7 @@ EXPLANATION = (
     "from the caller's own beta; a literal zero is passed only by the *_uninit entry points or paired with a scratch tile "
     "pointer, and one() only on a non-first depth block (guard depth_range.start == 0 false) or after the first gemv kernel "
     "call; (init) gemm_impl's Ok exits are reached only through a full initialisation (init_from / fill / apply / gemv / the "
-    "blocked loop); (beta-only-output) in every kernel function a value assigned under a beta test and live outside it derives from an output read or is the zero replacing it, so beta selects/scales only the C term. Numerical correctness of alpha*A*B + beta*C + bias and tile coverage arithmetic are not decided.")
+    "blocked loop); (beta-only-output) in every kernel function a value assigned under a beta test and live outside it derives from an output read or is the zero replacing it, so beta selects/scales only the C term. (alpha-honoured) every Kernel::kernel / gemv_kernel impl reads its alpha parameter (the x86-64 int8 impls do not: known findings). Numerical correctness of alpha*A*B + beta*C + bias and tile coverage arithmetic are not decided.")
 ASSUMPTIONS = ["names of the beta-carrying parameters (beta, effective_beta, dest_beta, accumulate, MatVecOutput.beta) identify the beta flow; the forward rule ties them to the API's beta",
                "a kernel call writes every element of the tile it is given (used_rows x used_cols): tile coverage is value-level"]
 
@@ -37,12 +37,47 @@ def run(ctx):
     init_all(ctx, fb)
     scales_output(ctx, fb)
     prepack_stride(ctx, fb)
+    alpha_honoured(ctx, fb)
     import C17
     C17.accumulate_only(ctx, fb, 'C16.beta-only-output', lambda f: f.path.startswith(('rten_gemm::kernels', '<rten_gemm::kernels')) and not C17.is_int8_fn(f),
                         label='f32 kernel functions with a beta test', floor=5)
 
 
 # ---------------------------------------------------------------------------------------------------------------
+def alpha_honoured(ctx, fb):
+    """'GEMM computes alpha*A*B + beta*C ... for every kernel usable on the machine': in every impl of Kernel::kernel /
+    Kernel::gemv_kernel the `alpha` parameter has at least one use (as an operand or call argument).  A kernel that never
+    reads alpha computes A*B whatever alpha is - silently, whereas the generic u8 x i8 kernel at least asserts alpha == 1
+    (sibling agreement over the impls of one trait method)."""
+    R = 'C16.alpha-honoured'
+    n = 0
+    for f in fb.fns(crate='rten_gemm'):
+        if not f.has_mir() or not re.search(r' as rten_gemm::kernels::Kernel<.*>>::(kernel|gemv_kernel)$', f.path):
+            continue
+        al = [int(k) for k, v in (f.names or {}).items() if v in ('alpha', '_alpha') and 1 <= int(k) <= f.argc]
+        if not al:
+            ctx.inst(R, 'anchor:' + f.path.split('kernels::', 1)[1], False, 'alpha parameter not found', f.loc())
+            continue
+        n += 1
+        used = False
+        for i, b in enumerate(f.bbs):
+            if b.get('c'):
+                continue
+            for st in b['s']:
+                if st[0] == '=' and any(op_local(o) in al for o in _rv_operands(st[2])):
+                    used = True
+            t = b['t']
+            if t[0] == 'call' and any(op_local(a) in al for a in t[2]):
+                used = True
+            if t[0] == 'sw' and op_local(t[1]) in al:
+                used = True
+        m = re.search(r'kernels::(\w+)::(\w+) as rten_gemm::kernels::Kernel<([^>]*)>>::(\w+)$', f.path)
+        key = '%s<%s>::%s' % (m.group(2), m.group(3).replace(' ', ''), m.group(4)) if m else f.path[-60:]
+        ctx.inst(R, key, used, 'alpha is read by the kernel' if used else
+                 'the kernel never reads its alpha parameter: it computes A*B (+ beta-as-flag * C) for every alpha, silently; the generic kernel of the same element types asserts alpha == 1', f.loc())
+    ctx.floor(R, 'Kernel::kernel / gemv_kernel impls', n, 8)
+
+
 def pname(f, idx):
     return (f.names or {}).get(str(idx + 1))
 
